@@ -300,6 +300,15 @@ def unit_read_signal(prop, which):
     def unit(tier, known):
         from contracts import read_signal as C
         if which == "dispatch":
+            if prop == "C12":
+                # under C12 what matters is that the SPHERE reader gets the caller's dtype (a 1-byte dtype means "raw codes"): replayed
+                # with the C12 stand-in's dtype / plain cases
+                def tc12(ob):
+                    import itertools
+                    from rtc import c12
+                    allc = list(itertools.islice(c12.enumerate_cases("quick", 0), 6000))
+                    return [c for c in allc if c.get("kind") == "dtype"][:200] + [c for c in allc if c.get("kind") == "plain"][:200]
+                return run_contract(prop, ("util", "read_signal"), C.contract(), C.SETUPS, name="read_signal", to_case=tc12, replay_module="rtc.c12")
             return run_contract(prop, ("util", "read_signal"), C.contract(), C.SETUPS, name="read_signal", to_case=C.to_case, replay_module="rtc.c11")
         if which == "infer":
             return run_contract(prop, ("util", "_infer_force_as_from_rfilename"), C.contract_infer(), [("", C.setup_infer)], name="infer_force_as",
@@ -488,7 +497,7 @@ UNITS = {
     "C08": [unit_alias_arg("C08"), _lazy("contracts.alias", "unit_from_alias", "C08"), _lazy("contracts.alias", "unit_registry", "C08")],
     "C18": [unit_pre("C18", "preemph"), unit_pre("C18", "dither"), _lazy("contracts.purity", "unit_purity", "C18")],
     "C12": [unit_copy_samples("C12"), _lazy("contracts.sphere", "unit_g711", "C12"), unit_header_validation("C12"),
-            _lazy("contracts.sphere_header", "unit_parse", "C12")],
+            _lazy("contracts.sphere_header", "unit_parse", "C12"), unit_read_signal("C12", "dispatch")],
     "C20": [unit_circshift("C20"), _lazy("contracts.util_misc", "unit_angular", "C20"), unit_windows("C20"), _lazy("contracts.purity", "unit_purity", "C20"), _lazy("contracts.windows", "unit_gamma", "C20"), _lazy("contracts.util_misc", "unit_gauss_quant", "C20")],
     "C05": [unit_tri("C05", "init"), unit_tri("C05", "truncated"), unit_fbank("C05", "init"), unit_fbank("C05", "truncated"), unit_gabor("C05"), unit_gamma_prefix("C05"), _lazy("contracts.purity", "unit_purity", "C05")],
     "C06": [unit_tri("C06", "truncated"), unit_tri("C06", "init"), unit_fbank("C06", "truncated"), unit_fbank("C06", "init"), _lazy("contracts.purity", "unit_purity", "C06")],
